@@ -355,6 +355,10 @@ fn configs(prop: &str, thorough: bool) -> Vec<Cfg> {
                     v.push(Cfg { prop: prop.into(), pool: pool.into(), workers: 1, cap, batch, pb: Some(if thorough { 3 } else { 2 }), to: 0 });
                 }
                 v.push(Cfg { prop: prop.into(), pool: pool.into(), workers: 2, cap, batch: 1, pb: Some(if thorough { 2 } else { 1 }), to: 0 });
+                // one Timeout answer per worker queue (the worker may run dry between the dispatchers' packets)
+                if cap == 1 || thorough {
+                    v.push(Cfg { prop: prop.into(), pool: pool.into(), workers: 1, cap, batch: 1, pb: Some(2), to: 1 });
+                }
             }
         } else {
             for workers in [1usize, 2, 3] {
